@@ -2543,6 +2543,13 @@ pub fn array_insert(
         }
         return array_insert_jsonb(&val_buf, pos, new_value, buf);
     }
+    // the new value can be a `JSON` text while the value is `JSONB`.
+    if !is_jsonb(new_value) {
+        let new_value = parse_value(new_value)?;
+        let mut new_val_buf = Vec::new();
+        new_value.write_to_vec(&mut new_val_buf);
+        return array_insert_jsonb(value, pos, &new_val_buf, buf);
+    }
     array_insert_jsonb(value, pos, new_value, buf)
 }
 
@@ -2673,6 +2680,13 @@ pub fn array_intersection(value1: &[u8], value2: &[u8], buf: &mut Vec<u8>) -> Re
         }
         return array_intersection_jsonb(&val_buf1, value2, buf);
     }
+    // the second value can be a `JSON` text while the first value is `JSONB`.
+    if !is_jsonb(value2) {
+        let value2 = parse_value(value2)?;
+        let mut val_buf2 = Vec::new();
+        value2.write_to_vec(&mut val_buf2);
+        return array_intersection_jsonb(value1, &val_buf2, buf);
+    }
     array_intersection_jsonb(value1, value2, buf)
 }
 
@@ -2747,6 +2761,13 @@ pub fn array_except(value1: &[u8], value2: &[u8], buf: &mut Vec<u8>) -> Result<(
             return array_except_jsonb(&val_buf1, &val_buf2, buf);
         }
         return array_except_jsonb(&val_buf1, value2, buf);
+    }
+    // the second value can be a `JSON` text while the first value is `JSONB`.
+    if !is_jsonb(value2) {
+        let value2 = parse_value(value2)?;
+        let mut val_buf2 = Vec::new();
+        value2.write_to_vec(&mut val_buf2);
+        return array_except_jsonb(value1, &val_buf2, buf);
     }
     array_except_jsonb(value1, value2, buf)
 }
@@ -2824,6 +2845,13 @@ pub fn array_overlap(value1: &[u8], value2: &[u8]) -> Result<bool, Error> {
         }
         return array_overlap_jsonb(&val_buf1, value2);
     }
+    // the second value can be a `JSON` text while the first value is `JSONB`.
+    if !is_jsonb(value2) {
+        let value2 = parse_value(value2)?;
+        let mut val_buf2 = Vec::new();
+        value2.write_to_vec(&mut val_buf2);
+        return array_overlap_jsonb(value1, &val_buf2);
+    }
     array_overlap_jsonb(value1, value2)
 }
 
@@ -2896,6 +2924,13 @@ pub fn object_insert(
             return object_insert_jsonb(&val_buf, new_key, &new_val_buf, update_flag, buf);
         }
         return object_insert_jsonb(&val_buf, new_key, new_value, update_flag, buf);
+    }
+    // the new value can be a `JSON` text while the value is `JSONB`.
+    if !is_jsonb(new_value) {
+        let new_value = parse_value(new_value)?;
+        let mut new_val_buf = Vec::new();
+        new_value.write_to_vec(&mut new_val_buf);
+        return object_insert_jsonb(value, new_key, &new_val_buf, update_flag, buf);
     }
     object_insert_jsonb(value, new_key, new_value, update_flag, buf)
 }
